@@ -8,7 +8,8 @@ Local Open Scope N_scope.
 
 Inductive cev :=
 | CAct (a : action)
-| CLook (n : N) (seen : option N).   (* Server.endpoint(n) resolved to connection [seen] *)
+| CLook (n : N) (seen : option N)    (* Server.endpoint(n) resolved to connection [seen] *)
+| CProbe (n : N) (found : bool).     (* serveBackSide: the name resolved to some connection *)
 
 (** Observed notification: [true] = connect. *)
 Definition cnote := (bool * N * Z)%type.
@@ -32,6 +33,9 @@ Fixpoint replay (evs : list cev) (s : state) : option state :=
       match step s a with Some s' => replay r s' | None => None end
   | CLook n seen :: r =>
       if optN_eqb (lookup_name s n) seen then replay r s else None
+  | CProbe n found :: r =>
+      if Bool.eqb (match lookup_name s n with Some _ => true | None => false end) found
+      then replay r s else None
   end.
 
 Definition erase (e : entry) : cnote :=
